@@ -183,6 +183,18 @@ def catalogue():
                                 call("INNER", binds={"x": split(ref("DATA", "xs")), "skip": split(ref("FLAGS", "skips"))}, mode="array")],
                                {"o": ref("INNER", "y")})], "TOP", {}))
 
+    # 8h. the same, the mapped pipeline returning the output of the conditionally disabled call
+    P.append(program("dis_split_flag_out", [],
+                     [stage("FLAGS", "", "bool[] skips", {"skips": const([True, False])}),
+                      stage("DATA", "", "int[] xs", {"xs": const([10, 20])}), S_echo("WORK")],
+                     [pipeline("INNER", "int x, bool skip", "int y",
+                               [call("WORK", binds={"x": self_("x")}, dis=self_("skip"))],
+                               {"y": ref("WORK", "y")}),
+                      pipeline("TOP", "", "int[] o",
+                               [call("FLAGS"), call("DATA"),
+                                call("INNER", binds={"x": split(ref("DATA", "xs")), "skip": split(ref("FLAGS", "skips"))}, mode="array")],
+                               {"o": ref("INNER", "y")})], "TOP", {}))
+
     # 9. splitting stage with run-time chunk count 2 / 0 and a consumer
     for nm, val in (("split2", [1, 2]), ("split0", []), ("split1", [5]), ("split10", list(range(10)))):
         P.append(program(nm, [], [S_split("S"), stage("R", "int[] xs", "int n", {"n": length("xs")})],
